@@ -218,8 +218,9 @@ def run_case(case):
                         V.append(viol("c19.coarse_raises", "coarse restricted grid %s on [%s, %s) raises %s" % (cf, ai, bi, short_exc(ex)), tags, ctag + ["coarse"]))
                         break
             res["counters"]["coarse"] = res["counters"].get("coarse", 0) + len(cwins)
-    if freq in ("h", "2h", "6h") and T >= 8:
-        for cf in ("d", "2d"):
+    # calendar coarse steps; on a daily grid in a zone with clock changes the fine steps inside one coarse step are unequal (23 h / 25 h days)
+    if (freq in ("h", "2h", "6h") and T >= 8) or (freq == "d" and T >= 2):
+        for cf in (("d", "2d") if freq != "d" else ("2d", "3d", "7d")):
             for (a, b) in [(None, None), (g.all_points[min(2, T)], None)]:
                 # the coarse grid is anchored at the window start: use local midnights as starts so that calendar days are meant
                 a2 = g.start if a is None else a
